@@ -187,16 +187,16 @@ where
     New: Index<usize> + ?Sized,
     D: DiffHook,
     New::Output: PartialEq<Old::Output>,
-/*@*/     requires diff_pre(*vstd::prelude::old(d), old, old_range, new, new_range, alg_lvl(deadline)),
+/*@*/     requires diff_pre(*vstd::prelude::old(d), old, old_range, new, new_range, 2),
 /*@*/         (old_range.end - old_range.start) <= u32::MAX || (new_range.end - new_range.start) <= u32::MAX,   // table cells are u32
 /*@*/     ensures
 /*@*/         err_post(*vstd::prelude::old(d), *final(d), res),
 /*@*/         (*final(d)).fobs() == (*vstd::prelude::old(d)).fobs(),
 /*@*/         (*final(d)).config() == (*vstd::prelude::old(d)).config(),
-/*@*/         seg_post(*vstd::prelude::old(d), *final(d), old, old_range, new, new_range, alg_lvl(deadline), deadline is None, fin::<D>(), res.is_ok()),
+/*@*/         seg_post(*vstd::prelude::old(d), *final(d), old, old_range, new, new_range, 2, deadline is None, fin::<D>(), res.is_ok()),
 {
     /*@*/ broadcast use {axiom_pure_index, axiom_pure_eq};
-    /*@*/ let ghost rel = rel_of(old, new); let ghost lvl = alg_lvl(deadline);
+    /*@*/ let ghost rel = rel_of(old, new); let ghost lvl: int = 2;
     /*@*/ let ghost o0 = old_range.start as int; let ghost n0 = new_range.start as int;
     /*@*/ let ghost oe0 = old_range.end as int; let ghost ne0 = new_range.end as int;
     /*@*/ let ghost d0 = *d; let ghost t0 = d.trace(); let ghost rs0 = d.rely_st(); let ghost r1 = d.rely_rel();
@@ -272,7 +272,7 @@ where
         /*@*/     invariant
         /*@*/         alg_inv(*d, d0, t0, s, rel, lvl, rs0, o0, n0, oc, nc), (*d).fobs() == d0.fobs(), (*d).config() == d0.config(),
         /*@*/         box_pre(old, old_range, new, new_range), rely_pre(d0, old, old_range, new, new_range, lvl),
-        /*@*/         rel == rel_of(old, new), lvl == alg_lvl(deadline), r1 == d0.rely_rel(), o0 == old_range.start, n0 == new_range.start,
+        /*@*/         rel == rel_of(old, new), lvl == 2, r1 == d0.rely_rel(), o0 == old_range.start, n0 == new_range.start,
         /*@*/         d0 == *vstd::prelude::old(d), rs0 == d0.rely_st(), t0 == d0.trace(), oe0 == old_range.end, ne0 == new_range.end,
         /*@*/         old_len == old_range.end - old_range.start - common_prefix_len - common_suffix_len,
         /*@*/         new_len == new_range.end - new_range.start - common_prefix_len - common_suffix_len,
